@@ -66,6 +66,15 @@ def _hook(event, args):
     sb = CURRENT
     if sb is None or not sb.active:
         return
+    n0 = len(sb.events)
+    try:
+        _hook_inner(sb, event, args)
+    finally:
+        if sb.late is not None and len(sb.events) > n0:
+            sb.maybe_plant()
+
+
+def _hook_inner(sb, event, args):
     if event == "open":
         path, mode, flags = args
         if isinstance(path, int) or path is None:
@@ -121,6 +130,8 @@ class Sandbox:
         self.default_answer = "<EOF>"
         self.fault = None
         self.fault_fired = False
+        self.late = None  # a file another job drops into the sandbox mid-op
+        self.late_count = 0
         self.peer = UserPeer(self)
 
     # -- life cycle
@@ -171,6 +182,35 @@ class Sandbox:
             self.events.append(("fault", rel, f["errno"]))
             raise OSError(f["errno"], os.strerror(f["errno"]), rel)
 
+    def maybe_plant(self):
+        """'another process' creates a file while the operation is running:
+        after the k-th observed disk event of the operation"""
+        late = self.late
+        # only while the command is still reading its input files: any
+        # implementation has a window between its existence check and its
+        # write, and a file appearing inside that window is not "a path that
+        # already exists" in the sense of the property
+        last = self.events[-1] if self.events else None
+        if not (last and last[0] == "open_r" and str(last[1]).startswith(
+                ("in/", "in2/"))):
+            return
+        self.late_count += 1
+        if self.late_count < late["after"]:
+            return
+        self.late = None
+        path = os.path.join(self.root, late["path"])
+        if os.path.lexists(path):
+            return
+        self.active = False
+        try:
+            os.makedirs(os.path.dirname(path), exist_ok=True)
+            with open(path, "wb") as f:
+                f.write(late["data"])
+            ino = os.stat(path).st_ino
+        finally:
+            self.active = True
+        self.events.append(("planted", late["path"], ino))
+
     def snapshot(self):
         """relpath -> (bytes, inode) of every regular file in the sandbox"""
         out = {}
@@ -186,8 +226,11 @@ class Sandbox:
                     out[os.path.relpath(p, self.root)] = (fh.read(), st.st_ino)
         return out
 
-    def run(self, fn, answers=(), fault=None, default_answer="<EOF>"):
+    def run(self, fn, answers=(), fault=None, default_answer="<EOF>",
+            late=None):
         """execute fn() under observation -> (events, exception | None)"""
+        self.late = dict(late) if late else None
+        self.late_count = 0
         self.events = []
         self.answers = list(answers)
         self.default_answer = default_answer
